@@ -251,7 +251,24 @@ func cacheChild() {
 	}
 }
 
+// runCacheChild runs a history in a fresh process.  A child that does not finish within its time limit is run once more,
+// ALONE (no other child of this harness beside it) and with four times the limit, before the history counts as hung: on a
+// saturated machine sixteen children at a time can each be starved past a limit that a single one never comes near.
 func runCacheChild(job cacheJob) ([]cacheObs, string) {
+	cacheChildGate.RLock()
+	obs, crash := runCacheChildOnce(job, 60*time.Second)
+	cacheChildGate.RUnlock()
+	if strings.Contains(crash, "timeout (hang)") {
+		cacheChildGate.Lock()
+		obs, crash = runCacheChildOnce(job, 240*time.Second)
+		cacheChildGate.Unlock()
+	}
+	return obs, crash
+}
+
+var cacheChildGate sync.RWMutex
+
+func runCacheChildOnce(job cacheJob, limit time.Duration) ([]cacheObs, string) {
 	self, _ := os.Executable()
 	cmd := exec.Command(self, "cachechild")
 	// documents travel as hex: JSON would replace bytes that are not valid UTF-8
@@ -273,7 +290,7 @@ func runCacheChild(job cacheJob) ([]cacheObs, string) {
 	var werr error
 	select {
 	case werr = <-done:
-	case <-time.After(60 * time.Second):
+	case <-time.After(limit):
 		cmd.Process.Kill()
 		werr = fmt.Errorf("timeout (hang)")
 	}
